@@ -73,6 +73,13 @@ NextMR == \/ \E idx \in 0..15, f \in {0, 5, 31}, w \in {1, 8, 32}, tag \in Tags 
                /\ f + w <= 32
                /\ c' = <<idx, f, w, tag>>
                /\ LET r == RegField("f1", idx, tag, f, f + w - 1) IN Emit("MR", FlowModEl("m", 0, <<r>>, <<>>, tag), <<r>>)
+          \/ \E name \in {"NXM_NX_REG5", "NXM_NX_CT_MARK", "NXM_NX_TUN_ID", "NXM_NX_XXREG1", "NXM_NX_CT_LABEL", "NXM_OF_ETH_DST", "NXM_NX_CT_ZONE"},
+                form \in {"plain", "start", "range", "shift", "noshift"}, start \in {0, 1, 4, 8, 9, 15}, dbits \in {{0}, {0, 2}, {1, 3, 6}, {0, 7}}, tag \in Tags :
+               /\ start + SetMax(dbits) + 1 <= 8 * WidthOf(name)                     \* generic builder: every calling convention x window position
+               /\ (form = "plain" => start = 0)
+               /\ Sel(start + Cardinality(dbits))
+               /\ c' = <<"gen", name, form, start, dbits, tag>>
+               /\ LET r == GenField("f1", name, dbits, start, form) IN Emit("MR", FlowModEl("m", 0, <<r, MF("f2", 1, tag, FALSE)>>, <<>>, tag), <<r>>)
           \/ \E idx \in 0..7, len \in {4, 8, 12, 64, 124}, masked \in BOOLEAN, tag \in Tags :      \* tunnel metadata: variable length, with a following field
                /\ (masked => len <= 64)
                /\ c' = <<"tun", idx, len, masked, tag>>
